@@ -819,6 +819,9 @@ def main(run):
     results = run.explore('combos', cs, run_case, budget_s=120)
     run.explore('reader', reader_cases(run.tier), run_case, budget_s=120)
     run.explore('clones', clone_cases(run.tier), run_clones, budget_s=300, chunksize=1)
+    # the summary table of dassh.out through which a user reads this property (vf/props/reports.py)
+    from . import reports
+    run.explore('report-flow', reports.cases_flow(run.tier), reports.run_flow, budget_s=300)
     # summaries
     w = {'closed': 0.0, 'iter': 0.0, 'bundle': 0.0, 'mass': 0.0, 'xdist': 0.0}
     crashed = set()
@@ -858,6 +861,9 @@ def main(run):
 
 
 def replay(body):
+    if str((body.get('scenario') or {}).get('probe', '')).startswith('report-'):
+        from . import reports
+        return reports.replay(body)
     fn = run_clones if body['scenario'].get('probe') == 'clones' else run_case
     r = guarded(fn, body['scenario'], 600)
     for v in r['violations']:
